@@ -487,6 +487,40 @@ fn one_store(cfg: &RunCfg, out: &Out, k: u64, queries: u64) {
         }
         let (script, st, kind) = gen_search_script(&mut rng, &scripts);
         let search_raw = raw_of(&script);
+        if rng.chance(1, 40) {
+            // degenerate requests (documented ckb-indexer behaviour): limit 0, search args longer than 65535 bytes, and the cell-only
+            // filters (output data length / capacity range) on get_transactions are refused with an error - never answered with a
+            // partial list, never a panic
+            let none = Filt::default();
+            let which = rng.below(4);
+            let res = guarded(|| match which {
+                0 => rpc.get_cells(search_key_wd(&script, st, &none, false, None), Order::Asc, 0u32.into(), None).map(|p| p.objects.len()).map_err(|e| e.message),
+                1 => rpc.get_transactions(search_key(&script, st, &none, false), Order::Desc, 0u32.into(), None).map(|p| p.objects.len()).map_err(|e| e.message),
+                2 => {
+                    let big = script.clone().as_builder().args(vec![0u8; 65_536 + rng.below(3) as usize].pack()).build();
+                    rpc.get_cells(search_key_wd(&big, st, &none, false, None), Order::Asc, 10u32.into(), None).map(|p| p.objects.len()).map_err(|e| e.message)
+                }
+                _ => {
+                    let mut f = Filt::default();
+                    if rng.chance(1, 2) {
+                        f.data_len = Some([0, 1000]);
+                    } else {
+                        f.capacity = Some([0, u64::MAX]);
+                    }
+                    rpc.get_transactions(search_key(&script, st, &f, false), Order::Asc, 10u32.into(), None).map(|p| p.objects.len()).map_err(|e| e.message)
+                }
+            });
+            out.eval(1);
+            let name = ["cells-limit-0", "transactions-limit-0", "search-args-over-65535-bytes", "transactions-with-a-cell-only-filter"][which as usize];
+            out.cell(&format!("degenerate-request|{}", name));
+            match res {
+                Ok(Err(_)) => {}
+                Ok(Ok(n)) => viol(out, k, "C13.R7", &format!("degenerate-request-answered|{}", name), &json!({"store_seed": seed, "query": qn}), json!({"objects": n})),
+                Err(Unwound::Panic(p)) => viol(out, k, "C13.R7", &format!("panic|{}", p.signature("C13", name)), &json!({"store_seed": seed, "query": qn}), json!({"panic": p.message, "at": p.location})),
+                Err(_) => {}
+            }
+            continue;
+        }
         let limit = *rng.pick(&[1u32, 2, 3, 5, 7, 50, 100_000]);
         let is_cells = rng.chance(1, 2);
         let f = gen_filter(&mut rng, &d, &scripts, st, !is_cells);
